@@ -297,3 +297,15 @@ class Parser_call_range_value:
         if not out.ret:
             return True
         return same(out.value, last_not_none(None, setter_values()))
+
+
+@contract('hotxlfp.formulas.error:clear_tracebacks', props=['C02'])
+class clear_tracebacks:
+    # resets __traceback__/__context__ of the nine shared error instances: no value-level effect (the model of an error value is
+    # its code); the effect itself - no traceback left after parse() - is measured by the bounded run of C02
+    no_native = True
+    bounded_only = True
+    reason = 'mutates interpreter-level attributes (__traceback__) that the value model does not represent'
+
+    def spec():
+        return None
